@@ -188,3 +188,156 @@ Theorem C08_report_sound_cycle :
       = Ok (c_root (xc_cd x)).
 Proof. exact cycle_report_sound. Qed.
 Print Assumptions C08_report_sound_cycle.
+
+Require Import Verif.Check.C08_check Verif.Proofs.JudgeSoundC08P.
+(* ---- the executable properties of Check/C08_check.v are the property (judge soundness) ---- *)
+(* Vocabulary (Proofs/JudgeSoundC08P.v): [judged_report g h cd r] = r names cd's chain, cd reproduces its committed root,
+   r's messages are the messages of cd at a non-empty ascending set of eligible indices with the token data of the
+   same indices, and r handed to VerifyComputeRoot the way the destination does it yields cd's committed root
+   ([provable], the conclusion of C08_provable); [step_prop] = one Add result against its commit data (C08_add, C08_mark);
+   [ugas] / [utotal_gas] = the gas of a report / of all reports added up WITHOUT uint64 wrap. *)
+
+(* sink C08_mm, (a): the model's Prove / Root / VerifyComputeRoot answers pass mm_ok for every input *)
+Theorem C08_judge_mm_model_passes : forall i : mm_in, mm_ok i (mm_model i) = true.
+Proof. exact mm_model_passes. Qed.
+Print Assumptions C08_judge_mm_model_passes.
+
+(* sink C08_mm, (b): an arbitrary (Prove result, Root, VerifyComputeRoot result) that passes mm_ok satisfies the
+   conclusion of C08_multiproof about its own root *)
+Theorem C08_judge_mm_sound : forall (leaves : list N) (idxs : list nat) (vl vp : list N) (vf : list bool)
+    (pr : res (list N * list bool)) (root : N) (vr : res N),
+  mm_ok (leaves, idxs, (vl, vp, vf)) (pr, root, vr) = true ->
+  length leaves <= max_leaves -> ascn idxs -> idxs <> [] -> (forall k, In k idxs -> k < length leaves) ->
+  exists ps fl, pr = Ok (ps, fl) /\ verify ahash (vals mm_zero leaves idxs) ps fl = Ok root /\
+    (vl = vals mm_zero leaves idxs -> vp = ps -> vf = fl -> vr = Ok root).
+Proof. intros leaves idxs vl vp vf pr root vr H. exact (mm_sound _ _ H). Qed.
+Print Assumptions C08_judge_mm_sound.
+
+(* sink C08_sel, (a) *)
+Theorem C08_judge_sel_model_passes : forall i : sel_in, sel_ok i (sel_model i) = true.
+Proof. exact sel_model_passes. Qed.
+Print Assumptions C08_judge_sel_model_passes.
+
+(* sink C08_sel, (b): pending entries are input positions in strictly ascending order; an entry of a report without
+   messages shows its executed count untouched, one of a report with messages has fewer executed entries than
+   messages; every report without messages is pending; the builder was only handed reports that have messages *)
+Theorem C08_judge_sel_sound : forall (i : sel_in) (n : N) (pend : list (N * N)) (calls : list N),
+  sel_ok i (Ok (n, pend, calls)) = true ->
+  StronglySorted N.lt (map fst pend) /\
+  (forall p e, In (p, e) pend -> exists nm ne, nth_error (snd i) (N.to_nat p) = Some (nm, ne) /\
+                                   (nm = 0%N -> e = ne) /\ (nm <> 0%N -> (e < nm)%N)) /\
+  (forall k ne, nth_error (snd i) k = Some (0%N, ne) -> In (N.of_nat k, ne) pend) /\
+  (forall p, In p calls -> exists nm ne, nth_error (snd i) (N.to_nat p) = Some (nm, ne) /\ nm <> 0%N).
+Proof. intros i n pend calls H. exact (sel_sound i _ H). Qed.
+Print Assumptions C08_judge_sel_sound.
+
+(* sink C08_sel: an answer that is neither a result nor an error never passes *)
+Theorem C08_judge_sel_sound_crash : forall i : sel_in, sel_ok i Panic = false /\ sel_ok i Spin = false.
+Proof. intros i. split; reflexivity. Qed.
+Print Assumptions C08_judge_sel_sound_crash.
+
+(* sink C08_add_0, first pass, (a): on well-formed input (limits are uint64 values, at most 256 messages per commit
+   report, the unwrapped gas of one commit report below 2^64) the model's run passes add_ok *)
+Theorem C08_judge_add_model_passes : forall (g : cfg) (cds : list cdata),
+  (g_max_size g < two64)%N -> (g_max_gas g < two64)%N ->
+  (forall cd, In cd cds -> length (c_msgs cd) <= 256 /\
+     (usum (c_msgs cd) + g_tga g + g_tgb g * N.of_nat (length (c_msgs cd)) < two64)%N) ->
+  add_ok (g, cds) (add_model (g, cds)) = true.
+Proof. intros g cds H1 H2 H3. apply add_model_passes. split; [exact H1|]. split; [exact H2|exact H3]. Qed.
+Print Assumptions C08_judge_add_model_passes.
+
+(* sink C08_add_0, first pass, (b): for an arbitrary (per-Add results, Build()) that passes add_ok: Build() is exactly
+   the reports appended, in order; the k-th Add result satisfies step_prop against the k-th commit report (nothing
+   appended and the commit data unchanged, or one judged report appended that the implementation's own verifier
+   accepted and exactly its sequence numbers marked executed); and the limits hold for the unwrapped sums *)
+Theorem C08_judge_add_sound : forall (g : cfg) (cds : list cdata) (outs : list add_out) (built : list creport),
+  add_ok (g, cds) (outs, built) = true ->
+  let h := thash (mk_htable (g_table g)) in
+  built = appended outs /\ length outs <= length cds /\
+  (forall k x, nth_error outs k = Some x -> exists cd, nth_error cds k = Some cd /\ step_prop g h cd x) /\
+  Forall (fun r => exists cd, In cd cds /\ judged_report g h cd r) built /\
+  (total_size (codec_size g) built <= g_max_size g)%N /\
+  (total_gas (tgas g) built <= utotal_gas g built)%N /\ (utotal_gas g built <= g_max_gas g)%N.
+Proof. intros g cds outs built H. exact (add_sound (g, cds) (outs, built) H). Qed.
+Print Assumptions C08_judge_add_sound.
+
+(* the same in the words of C08_outcome and C08_provable: every report of Build() re-verifies to the committed root of
+   one of the commit reports, and the code's own totals are inside the limits *)
+Theorem C08_judge_add_sound_provable_limits : forall (g : cfg) (cds : list cdata) (outs : list add_out) (built : list creport),
+  add_ok (g, cds) (outs, built) = true ->
+  let h := thash (mk_htable (g_table g)) in
+  (forall r, In r built -> exists cd, In cd cds /\ r_src r = c_src cd /\
+     forall hs, Forall2 (fun m x => lhash m = Some x) (r_msgs r) hs ->
+       verify h hs (r_proofs r) (flags_to_bools (r_flags r) (length hs + length (r_proofs r) - 1)) = Ok (c_root cd)) /\
+  (total_size (codec_size g) built <= g_max_size g)%N /\ (total_gas (tgas g) built <= g_max_gas g)%N.
+Proof.
+  intros g cds outs built H. destruct (add_sound_outcome (g, cds) (outs, built) H) as [H1 [H2 H3]]. cbv zeta in *.
+  cbn [fst snd] in *. split; [|split; assumption].
+  intros r Hr. rewrite Forall_forall in H1. destruct (H1 r Hr) as [cd [Hc [Hs [_ [_ Hp]]]]]. exists cd. auto.
+Qed.
+Print Assumptions C08_judge_add_sound_provable_limits.
+
+(* sink C08_add_0, second pass (the nonce clause, masked by the recorded class F14), (a): outside the class the model's
+   reports pass; this is the full-strength nonce clause, proved for the whole run outside the class *)
+Theorem C08_judge_add_nonce_model_passes : forall (g : cfg) (cds : list cdata),
+  add_known (g, cds) = 0%N ->
+  (forall c s v, nlookup c s (g_nonces g) = Some v -> (v < two64)%N) ->
+  (forall cd, In cd cds -> Forall (fun m => (m_nonce m < two64)%N) (c_msgs cd)) ->
+  add_nonce_ok (g, cds) (add_model (g, cds)) = true.
+Proof. intros g cds Hk H1 H2. apply add_nonce_model_passes; [exact Hk|split; assumption]. Qed.
+Print Assumptions C08_judge_add_nonce_model_passes.
+
+(* ... (b): on uint64 nonces, reports that pass the nonce clause are in the specification's nonce order *)
+Theorem C08_judge_add_nonce_sound : forall (g : cfg) (cds : list cdata) (outs : list add_out) (built : list creport),
+  add_nonce_ok (g, cds) (outs, built) = true ->
+  (forall c s v, nlookup c s (g_nonces g) = Some v -> (v < two64)%N) ->
+  (forall r, In r built -> Forall (fun m => (m_nonce m < two64)%N) (r_msgs r)) ->
+  nonce_run_reports (g_nonces g) [] built <> None.
+Proof. intros g cds outs built H H1 H2. exact (add_nonce_sound (g, cds) (outs, built) H H1 H2). Qed.
+Print Assumptions C08_judge_add_nonce_sound.
+
+(* sink C08_out, first pass, (b): every chain report of a decoded outcome that passes out_ok is a judged report of one
+   of the pending commit reports, the totals are inside maxReportLength and the BatchGasLimit, every pending entry
+   shown is an input commit report (unchanged, or with its chain report's sequence numbers marked) that is not
+   finished, and every input commit report is accounted for *)
+Theorem C08_judge_out_sound : forall (i : out_in) (rs : list creport) (pend : list cdata),
+  out_ok i (Ok (rs, pend)) = true ->
+  let g := out_cfg i in let h := thash (mk_htable (g_table g)) in
+  Forall (fun r => exists cd, In cd (snd i) /\ judged_report g h cd r) rs /\
+  (total_size (codec_size g) rs <= plugin_max_report)%N /\
+  (total_gas (tgas g) rs <= utotal_gas g rs)%N /\ (utotal_gas g rs <= g_max_gas g)%N /\
+  (forall x, In x pend -> pending_entry g h (snd i) rs x) /\
+  (forall cd, In cd (snd i) -> accounted g h rs pend cd).
+Proof. intros i rs pend H. exact (out_sound i _ H). Qed.
+Print Assumptions C08_judge_out_sound.
+
+(* sink C08_out, second pass, (b) *)
+Theorem C08_judge_out_nonce_sound : forall (i : out_in) (rs : list creport) (pend : list cdata),
+  out_nonce_ok i (Ok (rs, pend)) = true ->
+  (forall c s v, nlookup c s (g_nonces (out_cfg i)) = Some v -> (v < two64)%N) ->
+  (forall r, In r rs -> Forall (fun m => (m_nonce m < two64)%N) (r_msgs r)) ->
+  nonce_run_reports (g_nonces (out_cfg i)) [] rs <> None.
+Proof. intros i rs pend H. exact (out_nonce_sound i _ H). Qed.
+Print Assumptions C08_judge_out_nonce_sound.
+
+(* sink C08_out, first pass, (a): on well-formed input (BatchGasLimit a uint64 value; at most 256 messages per pending
+   commit report and gas that cannot wrap; two commit reports of one source chain share no message; the pending commit
+   reports come ordered by source chain, as the previous outcome's encoding leaves them) the model's outcome passes *)
+Theorem C08_judge_out_model_passes : forall i : out_in,
+  (g_max_gas (out_cfg i) < two64)%N ->
+  (forall cd, In cd (snd i) -> length (c_msgs cd) <= 256 /\
+     (usum (c_msgs cd) + g_tga (out_cfg i) + g_tgb (out_cfg i) * N.of_nat (length (c_msgs cd)) < two64)%N) ->
+  ForallOrdPairs (fun a b => c_src a = c_src b -> forall m, In m (c_msgs a) -> ~ In m (c_msgs b)) (snd i) ->
+  StronglySorted (fun a b => (c_src a <= c_src b)%N) (snd i) ->
+  out_ok i (out_model i) = true.
+Proof. intros i H1 H2 H3 H4. apply out_model_passes. split; [exact H1|]. split; [exact H2|]. split; [exact H3|exact H4]. Qed.
+Print Assumptions C08_judge_out_model_passes.
+
+(* sink C08_out, second pass, (a): outside the recorded class the model's outcome passes the nonce clause *)
+Theorem C08_judge_out_nonce_model_passes : forall i : out_in,
+  out_known i = 0%N -> out_wf i ->
+  (forall c s v, nlookup c s (g_nonces (out_cfg i)) = Some v -> (v < two64)%N) ->
+  (forall cd, In cd (snd i) -> Forall (fun m => (m_nonce m < two64)%N) (c_msgs cd)) ->
+  out_nonce_ok i (out_model i) = true.
+Proof. intros i Hk Hwf H1 H2. apply out_nonce_model_passes; [exact Hk|exact Hwf|split; assumption]. Qed.
+Print Assumptions C08_judge_out_nonce_model_passes.
